@@ -161,6 +161,56 @@ func init() {
 			}
 		})
 
+	register("C05.R4", "nothing is skipped: in every loop of buildProviderMap the insertion is reached for every element except on the conflict edge (and, for bindings, the missing-concrete edge) — no other condition filters what enters the maps",
+		func(c *Ctx, r *R) {
+			fi := r.Need(c.Fn(c.W, "buildProviderMap"), "buildProviderMap")
+			if fi == nil {
+				return
+			}
+			n := 0
+			for _, st := range fi.callsTo(fnMapSet) {
+				loop := fi.enclosingLoop(st)
+				var top ast.Node
+				if loop != nil {
+					top = loopBody(loop)
+				} else if lit, ok := fi.enclosing(st, func(n ast.Node) bool { _, ok := n.(*ast.FuncLit); return ok }).(*ast.FuncLit); ok {
+					top = lit.Body
+				}
+				if top == nil {
+					continue
+				}
+				n++
+				k := "reach(" + exprShort(recvOf(st)) + ",key=" + exprShort(st.Args[0]) + ")/" + fi.loopCtx(st)
+				var extra []string
+				for _, g := range fi.GuardsWithin(st, top) {
+					if x, isNil, ok := fi.nilTest(g); ok {
+						if at := fi.isCall(fi.deref(x), fnMapAt); at != nil {
+							if isNil && fi.sameExpr(at.Args[0], st.Args[0]) {
+								continue // duplicate test, nil edge
+							}
+							if !isNil && fi.selField(at.Args[0]) != nil && fi.selField(at.Args[0]).Name() == "Provided" {
+								continue // binding: concrete type is provided
+							}
+						}
+					}
+					extra = append(extra, exprShort(g.Expr))
+				}
+				// outer loops up to the function body must be unfiltered too (e.g. range p.Out inside range set.Providers)
+				for p := fi.enclosingLoop(loopOrLit(fi, st)); p != nil; p = fi.enclosingLoop(p) {
+					inner := fi.stmtOf(loopOrLit(fi, st))
+					for _, g := range fi.GuardsWithin(inner, loopBody(p)) {
+						extra = append(extra, exprShort(g.Expr))
+					}
+					break
+				}
+				r.Check(len(extra) == 0, k, st.Pos(), "insertion is skipped only on a conflict (extra conditions: %v)", extra)
+				if loop != nil {
+					r.Check(len(fi.loopExits(loop)) == 0, k+"/no-early-exit", st.Pos(), "the loop visits every element")
+				}
+			}
+			r.Floor("insertions checked for reachability", n, 12)
+		})
+
 	register("C05.R1b", "bindingConflictError never returns nil (the collector drops nil errors): every return is notePosition of a freshly constructed error",
 		func(c *Ctx, r *R) {
 			fi := r.Need(c.Fn(c.W, "bindingConflictError"), "bindingConflictError")
@@ -377,4 +427,15 @@ func init() {
 				r.Control("Map.Set detector", false, 0)
 			}
 		})
+}
+
+// loopOrLit returns the innermost loop or function literal containing n.
+func loopOrLit(fi *FuncInfo, n ast.Node) ast.Node {
+	for p := fi.parent[n]; p != nil; p = fi.parent[p] {
+		switch p.(type) {
+		case *ast.ForStmt, *ast.RangeStmt, *ast.FuncLit:
+			return p
+		}
+	}
+	return n
 }
